@@ -26,10 +26,12 @@ func extraAgents(s *Sim) []Agent {
 	add("orders", &OrdersAgent{newBase(s, "orders")})
 	add("executor", &ExecutorAgent{baseAgent: newBase(s, "executor")})
 	add("attacker", &AttackerAgent{baseAgent: newBase(s, "attacker")})
+	add("squatter", &SquatterAgent{baseAgent: newBase(s, "squatter")})
 	return out
 }
 
 func extraMonitors(s *Sim) []Monitor {
+	c10 := newMonC10(s)
 	return []Monitor{
 		newMonC06(s),
 		newMonC08(s),
@@ -43,7 +45,8 @@ func extraMonitors(s *Sim) []Monitor {
 		newMonC05(s),
 		newMonC07(s),
 		newMonC13(s),
-		newMonC10(s),
+		c10,
+		newMonC12Locks(s, c10),
 		newMonC20(s),
 		&MonC17{},
 	}
